@@ -209,6 +209,11 @@ func GenIngressWorld(t *rapid.T, admin bool) *World {
 				r.TargetName = rapid.SampledFrom(names).Draw(t, l+"tn")
 			}
 		}
+		if rapid.IntRange(0, 2).Draw(t, l+"kinds") == 0 {
+			for i := 0; i <= len(r.Alt); i++ {
+				r.Kinds = append(r.Kinds, rapid.SampledFrom([]string{"", "omit", "omit", "Bucket"}).Draw(t, fmt.Sprintf("%skind%d", l, i)))
+			}
+		}
 		w.Routes = append(w.Routes, r)
 	}
 	return w
@@ -300,7 +305,10 @@ func ingressPorts(w *World, W *Workload, lenient bool) (res map[int]bool, target
 		}
 	}
 	for _, r := range w.Routes {
-		for _, sn := range append([]string{r.To}, r.Alt...) {
+		for i, sn := range append([]string{r.To}, r.Alt...) {
+			if _, isSvc := r.refKind(i); !isSvc {
+				continue // a reference to something that is not a Service
+			}
 			s := find(r.Ns, sn)
 			if s == nil {
 				continue
